@@ -271,8 +271,8 @@ class GenInh(dynlib.Gen):
                     self.avoided["setformula_below_an_override_generated"] = self.avoided.get("setformula_below_an_override_generated", 0) + 1
                 op = dict(zip(["c", "params", "body"], gen_cells(rng, c, ctx_inh(defs, p, upto=c))), op="setformula", p=p)
             elif kind == "base_newcells":
-                free = [c for c in CELLS if c not in [x[0] for x in nd["cells"]]
-                        and not any(c in dict(vis_cells(defs, q)) for q in all_subs(defs, p))]      # D1 (C03)
+                # D1 (C03) is repaired in /repo: a name a sub space sees through another base (or defines) is generated
+                free = [c for c in CELLS if c not in dict(vis_cells(defs, p))]
                 if free:
                     c = rng.choice(free)
                     op = dict(zip(["c", "params", "body"], gen_cells(rng, c, ctx_inh(defs, p, upto=c))), op="newcells", p=p)
